@@ -23,6 +23,7 @@
    Oracle-only part (check/props/c04.py): the winding-number statement for real renders, on
    adaptive octrees, with real vertex positions. *)
 From Coq Require Import Reals Lra List ZArith Bool.
+From LF Require Render.OctTreeSep.
 From LF Require Import Render.Pruning Render.DCGrid Render.DCGridSem Render.DCBoundary.
 From LF Require Render.DCBoundaryCont.
 From LF Require Render.OctTree Render.OctTreeCollect Render.OctTreeSem.
@@ -292,3 +293,72 @@ Print Assumptions C04_boundary_examples.
 Print Assumptions C04_geometric_example.
 Print Assumptions AdaptiveDC.C04_dc_adaptive_no_holes.
 Print Assumptions AdaptiveDC.C04_dc_adaptive_surface_at_sign_changes.
+
+(* ------------------------------------------------------------------ *)
+(* (f) adaptive octrees: triangles AT the sign changes (partial)        *)
+(* ------------------------------------------------------------------ *)
+(* Converse direction of C04_dc_adaptive_surface_at_sign_changes, with signs, orientation and crossing parity
+   (Render/OctTreeSep*.v; 3D analogue of module AdaptiveSep of Properties_C10.v).  [min_edge3 A a b c d s k]: the four placed
+   leaves contain the cubes of side 2^k around the lattice edge [s, s + 2^k] of axis A, in load3's argument order, one of them
+   of level exactly k.  PROVED: the edge recursion reaches every such quadruple (sign-free), hence - the "_partial" theorems -
+   every sign-changing minimal edge lying on the CENTRAL LINE of a branching cell yields its quad (the explicit [quad3] of
+   [load3]), non-empty when the leaves are distinct, included in the mesh, its leaves forced ambiguous; which end is inside
+   decides the winding; along any path of minimal edges the number of emitting edges is odd iff the ends differ in sign.
+   NOT PROVED (time): the same for minimal edges lying INSIDE A FACE shared by two children (call_face3 -> face3 -> edge3;
+   outline at the top of Render/OctTreeSep.v), [distinct3] from geometry, the single-triangle output when two of the four
+   leaves coincide.  The winding-number statement on adaptive octrees therefore stays with the oracle. *)
+Module AdaptiveDCSep.
+Import OctTree OctTreeGeom OctTreeNet OctTreeSem OctTreeSep.
+Local Open Scope Z_scope.
+
+
+(* sign-free completeness of the edge recursion *)
+Theorem C04_edge3_reaches_every_quadruple : forall ins diag A, oaxis A -> forall f ca cb cc cd s0 k0 a b c d s k,
+  pfits3 ins A (Qax A + Rax A) ca s0 k0 -> pfits3 ins A (Rax A) cb s0 k0 ->
+  pfits3 ins A (Qax A) cc s0 k0 -> pfits3 ins A 0 cd s0 k0 ->
+  (c_k ca = k0 \/ c_k cb = k0 \/ c_k cc = k0 \/ c_k cd = k0) ->
+  (oheight (c_t ca) < f)%nat -> (oheight (c_t cb) < f)%nat -> (oheight (c_t cc) < f)%nat -> (oheight (c_t cd) < f)%nat ->
+  In a (pleaves3 ca) -> In b (pleaves3 cb) -> In c (pleaves3 cc) -> In d (pleaves3 cd) ->
+  min_edge3 A a b c d s k -> online A s0 k0 s k ->
+  incl (load3 diag A (c_cell a) (c_cell b) (c_cell c) (c_cell d))
+       (edge3 diag f A (c_cell ca) (c_cell cb) (c_cell cc) (c_cell cd)).
+Proof. exact edge3_complete. Qed.
+
+Theorem C04_adaptive_sign_changes_give_triangles_partial : forall ins diag t k0 A X a b c d s k,
+  oconsistent ins t (0, 0, 0) k0 -> oaxis A -> central_edge t k0 A X s k ->
+  In a (pleaves3 X) -> In b (pleaves3 X) -> In c (pleaves3 X) -> In d (pleaves3 X) ->
+  min_edge3 A a b c d s k -> ins s <> ins (ostep A s (osize k)) ->
+  In a (oleaves t [] (0, 0, 0) k0) /\ In b (oleaves t [] (0, 0, 0) k0) /\
+  In c (oleaves t [] (0, 0, 0) k0) /\ In d (oleaves t [] (0, 0, 0) k0) /\
+  o_is_ambig (c_t a) = true /\ o_is_ambig (c_t b) = true /\ o_is_ambig (c_t c) = true /\ o_is_ambig (c_t d) = true /\
+  load3 diag A (c_cell a) (c_cell b) (c_cell c) (c_cell d) =
+    quad3 diag (ins s) (vtx3 (ins s) A a 0) (vtx3 (ins s) A b 1) (vtx3 (ins s) A c 2) (vtx3 (ins s) A d 3) /\
+  (distinct3 a b c d -> load3 diag A (c_cell a) (c_cell b) (c_cell c) (c_cell d) <> []) /\
+  incl (load3 diag A (c_cell a) (c_cell b) (c_cell c) (c_cell d)) (mesh_walk diag t).
+Proof. exact OctTreeSep.adaptive_sign_changes_give_triangles_partial. Qed.
+
+Theorem C04_adaptive_mesh_separates_partial : forall ins diag t k0 l p q,
+  oconsistent ins t (0, 0, 0) k0 ->
+  Forall (step3_ok ins) l -> Forall s3_distinct l -> joins3 p l q ->
+  Nat.odd (length (emitting3 diag l)) = xorb (ins p) (ins q) /\
+  (forall e, In e l -> step3_central t k0 e -> incl (s3_load diag e) (mesh_walk diag t)).
+Proof. exact OctTreeSep.adaptive_mesh_separates_partial. Qed.
+
+(* orientation: which end is inside decides the winding *)
+Theorem C04_adaptive_quads_oriented : forall ins diag A a b c d s k, oaxis A ->
+  leaf_ok ins a -> leaf_ok ins b -> leaf_ok ins c -> leaf_ok ins d -> min_edge3 A a b c d s k ->
+  crosses3 ins A s k = true ->
+  c_p a <> c_p b -> c_p a <> c_p c -> c_p a <> c_p d -> c_p b <> c_p c -> c_p b <> c_p d -> c_p c <> c_p d ->
+  let D := ins s in
+  let va := vtx3 D A a 0 in let vb := vtx3 D A b 1 in let vc := vtx3 D A c 2 in let vd := vtx3 D A d 3 in
+  load3 diag A (c_cell a) (c_cell b) (c_cell c) (c_cell d) =
+  (let '(w1, w2) := if D then (vb, vc) else (vc, vb) in
+   if diag va w1 w2 vd then [(va, w1, w2); (w2, w1, vd)] else [(va, w1, vd); (va, vd, w2)]).
+Proof. exact load3_oriented. Qed.
+
+End AdaptiveDCSep.
+
+Print Assumptions AdaptiveDCSep.C04_edge3_reaches_every_quadruple.
+Print Assumptions AdaptiveDCSep.C04_adaptive_sign_changes_give_triangles_partial.
+Print Assumptions AdaptiveDCSep.C04_adaptive_mesh_separates_partial.
+Print Assumptions AdaptiveDCSep.C04_adaptive_quads_oriented.
